@@ -347,6 +347,10 @@ SetHit(k, o, v) ==
      /\ objs' = r.O
      /\ UNCHANGED <<uq, glob>>
 
+\* cached and uncached engine hold the same graph with the same shapes (true until a flaw strikes); then an
+\* ordinary operation has the same effect on both and is evaluated once
+SameEngineState == cst.O = ust.O /\ cst.shp = ust.shp /\ cst.nextU = ust.nextU
+
 \* set_by_name, miss: __set__, then cache if it succeeded and the slot is cacheable
 SetMiss(k, o, v) ==
   LET s == <<"S", k>>
@@ -354,7 +358,9 @@ SetMiss(k, o, v) ==
       ru == OrdSet(ust.O, o, k, v)
       rc == OrdSet(cst.O, o, k, v)
       nu == Reshape(ust, ru.O)
-      nc == IF cst.dead THEN cst ELSE Reshape(cst, rc.O)
+      nc == IF cst.dead THEN cst
+            ELSE IF SameEngineState THEN [cst EXCEPT !.O = nu.O, !.shp = nu.shp, !.nextU = nu.nextU]   \* (shortcut)
+            ELSE Reshape(cst, rc.O)
   IN /\ MatchIdx(cst, s, o) = 0
      /\ cst' = IF cst.dead THEN cst
                ELSE PushAt(nc, s, IF rc.obs.ok THEN SetSlot(cst.O, cst.shp, o, k) ELSE <<>>)
@@ -370,7 +376,9 @@ Mutate(op, o, k, d, p, Apply(_)) ==
       ru == Apply(ust.O)
       rc == Apply(cst.O)
       nu == Reshape(ust, ru.O)
-      nc == IF cst.dead THEN cst ELSE Reshape(cst, rc.O)
+      nc == IF cst.dead THEN cst
+            ELSE IF SameEngineState THEN [cst EXCEPT !.O = nu.O, !.shp = nu.shp, !.nextU = nu.nextU]   \* (shortcut)
+            ELSE Reshape(cst, rc.O)
   IN /\ objs' = r.O
      /\ ust' = nu
      /\ cst' = nc
